@@ -16,7 +16,7 @@ RULE = ("correspondence: a hub Node with 0..6 (thorough 0..10) out-arcs and in-a
         "check_basic, timestep ends; reply, iteration-limit message, ZeroDivisionError and every arc record and "
         "neighbour state compared exactly with coq/Distrib.v (cases whose exact results exceed 30 digits are not sent "
         "to Coq and are counted). monitor: the C18 clauses on the implementation incl. the proportional-share clause "
-        "when everything fits in the first round. non-trivial = distinct case with a fan of at least 2")
+        "when everything fits in the first round; probes on whole models after a run: a pull over any arc returns no more than was asked. non-trivial = distinct case with a fan of at least 2")
 
 
 def main():
@@ -38,7 +38,11 @@ def main():
     C.proof_stage(rep, "props/C18.v")
     K.correspondence(rep, "star", 1500 if thorough else 200, 8, tag="c18", maxdigits=30)
     S.monitor_c18(rep, 3000 if thorough else 300)
-    C.apply_known(rep, PID, {})
+    # the arcs of whole models after a run: a pull over any arc never returns more than was asked (the node classes of the
+    # library at the far end, incl. a Distribution with leakage, whose check handler rewrites the request it is shown)
+    import mon_probe
+    seen = mon_probe.run(rep, thorough, pid=PID) or {}
+    C.apply_known(rep, PID, {k: (v, "net", {"ops": [], "cls": "model"}, -1) for k, v in seen.items()})
     return rep.finish(RULE, ["exact-rational semantics stands for float semantics up to rounding",
                              "far ends respect the reply contract and answer wet offers with wet remainders (proved for tanks)",
                              "preferences and capacities are non-negative"])
